@@ -88,7 +88,7 @@ def _loop_clears(prog: Program, qual: str, call: ast.AST) -> List[Tuple[str, ast
 def taint_analysis(prog: Program, resolver: Resolver, memos: List[str]) -> List[Tuple[str, ast.AST, str]]:
     """In-place mutation of objects that are (part of) a memoised function's result.
     Levels: 'A' the object is cached/shared; 'E' a fresh container whose elements are."""
-    funcs = [q for q, fi in prog.functions.items() if fi.module not in SKIP]
+    funcs = [q for q, fi in prog.functions.items()]   # the shipped test helpers (measured.pytest, measured.hypothesis) are package code like any other
     level: Dict[Tuple[str, str], str] = {}       # (func, var) -> 'A' | 'E'
     ret: Dict[str, str] = {m: "A" for m in memos}
     findings: List[Tuple[str, ast.AST, str]] = []
